@@ -13,7 +13,7 @@ CHECKS = {
 
 CHECKS['C17'] = dict(
    technique='Coq proof over Q about arithmetic TRANSLATED from the python source on every run (py2coq) + correspondence impl/model/spec on a signed grid',
-   text='Theorem C17_builtins: for every number token (any rational value, either sign, any unit) round/ceil/floor/increment/decrement return the exact result with the unit preserved (zero prints bare), percentage returns 100x with unit % for arguments with at most 12 decimals; C17_round_spec_near/_ties pin the reference rounding (within 1/2, ties away from zero). The arithmetic bodies (builtin_*_py, away_from_zero_round_py) are regenerated from lesscpy/plib/call.py and lesscpy/lessc/utility.py by the translator on every run, so the theorem is re-checked against what the code says now. Correspondence: grid around integers and half-integers of both signs, literal / variable / expression arguments. Unknown-function pass-through is covered by correspondence only so far (see level_note).',
+   text='Theorem C17_unknown_function (a function name lesscpy does not define is copied with its arguments evaluated where the call stands, in order; on the evaluator model). Theorem C17_builtins: for every number token (any rational value, either sign, any unit) round/ceil/floor/increment/decrement return the exact result with the unit preserved (zero prints bare), percentage returns 100x with unit % for arguments with at most 12 decimals; C17_round_spec_near/_ties pin the reference rounding (within 1/2, ties away from zero). The arithmetic bodies (builtin_*_py, away_from_zero_round_py) are regenerated from lesscpy/plib/call.py and lesscpy/lessc/utility.py by the translator on every run, so the theorem is re-checked against what the code says now. Correspondence: grid around integers and half-integers of both signs, literal / variable / expression arguments. Unknown-function pass-through is covered by correspondence only so far (see level_note).',
    note='Trusted: Coq kernel; py2coq translator in gen_params.py (arithmetic expression subset, python numbers as exact rationals); hand model of analyze_number/with_unit; python float vs exact rational gap covered by correspondence at 1e-9. Partial: the unknown-function half of the property has no theorem yet.',
    design='3/C17')
 
